@@ -43,7 +43,7 @@ VARIABLES l,         \* next record
           created,   \* segment files created and not yet covered by a directory sync
           bad,       \* rule violations found so far in this call (reported once per call and rule)
           took,      \* files (ln / bbn) of which this call wrote a free-listed page before the switch-over
-          prev       \* <<>> or what the last call of the run left behind, if it committed: [run, took, head]
+          prev       \* <<>> or what the last call of the run left behind, if it committed: [run, took, head, seqn]
 
 vars == <<l, op, dirty, inflight, syncing, metaW, metaD, created, bad, took, prev>>
 
@@ -65,9 +65,11 @@ IsRecovery == op # <<>> /\ op.op.a = "Reopen"
 HeadOf(pre, f) == IF Len(pre[f].flPages) = 0 THEN 0 ELSE pre[f].flPages[1]
 \* files whose free list the previous call popped from and which still has the same head page
 StaleLists(e) ==
-    IF prev = <<>> \/ "run" \notin DOMAIN e THEN {}
-    ELSE IF prev.run # e.run THEN {}
-    ELSE {f \in prev.took : HeadOf(e.pre, f) = prev.head[f]}
+    IF prev = <<>> \/ "run" \notin DOMAIN e \/ "pre" \notin DOMAIN e \/ "img" \in DOMAIN e THEN {}   \* (img: recovery of a crash image, not a call of the run)
+    ELSE IF prev.run # e.run \/ "seqn" \notin DOMAIN e.pre THEN {}
+    \* not every call of a run is recorded: the image must be the one the remembered call left (its sync number + 1)
+    ELSE IF e.pre.seqn # prev.seqn + 1 THEN {}
+    ELSE {f \in prev.took : f \in DOMAIN e.pre /\ HeadOf(e.pre, f) = prev.head[f]}
 
 Report(rule) == IF rule \in bad THEN TRUE ELSE PrintT(<<"RULE-VIOLATED", rule, l, ToJson(Cur)>>)
 
@@ -119,7 +121,8 @@ StepRet ==
     /\ Cur.ev = "ret"
     \* only a call that reached its durable switch-over (and is not a recovery) says something about the next image
     /\ prev' = IF op # <<>> /\ ~IsRecovery /\ metaD /\ "run" \in DOMAIN op
-               THEN [run |-> op.run, took |-> took, head |-> [f \in {"ln", "bbn"} |-> HeadOf(op.pre, f)]]
+               THEN [run |-> op.run, took |-> took, head |-> [f \in {"ln", "bbn"} |-> HeadOf(op.pre, f)], seqn |-> op.pre.seqn]
+               ELSE IF op # <<>> /\ "img" \in DOMAIN op THEN prev
                ELSE <<>>
     /\ UNCHANGED <<op, dirty, inflight, syncing, metaW, metaD, created, bad, took>>
 
